@@ -74,7 +74,7 @@ class FnItem:
 
 
 class Frame:
-    __slots__ = ("fn", "loc", "bb", "ret_dst", "ret_bb", "wrap")
+    __slots__ = ("fn", "loc", "bb", "ret_dst", "ret_bb", "wrap", "cont")
 
     def __init__(self, fn):
         self.fn = fn
@@ -83,6 +83,7 @@ class Frame:
         self.ret_dst = None
         self.ret_bb = None
         self.wrap = None
+        self.cont = None        # optional continuation cont(engine, state, return value) -> outcomes
 
 
 class State:
@@ -128,7 +129,7 @@ def _cp(v, memo):
     if isinstance(v, Frame):
         n = Frame(v.fn)
         memo[i] = n
-        n.bb, n.ret_dst, n.ret_bb, n.wrap = v.bb, v.ret_dst, v.ret_bb, v.wrap
+        n.bb, n.ret_dst, n.ret_bb, n.wrap, n.cont = v.bb, v.ret_dst, v.ret_bb, v.wrap, v.cont
         n.loc = {k: _cp(x, memo) for k, x in v.loc.items()}
         return n
     if isinstance(v, Opaque):
@@ -149,6 +150,10 @@ def _cp(v, memo):
         return n
     if isinstance(v, tuple):
         return tuple(_cp(x, memo) for x in v)
+    if isinstance(v, (set, frozenset)):
+        return set(v)
+    if callable(v):
+        return v
     if hasattr(v, "clone"):
         n = v.clone(memo)
         memo[i] = n
@@ -360,8 +365,12 @@ class Engine:
                 idx = z3.simplify(fr.loc[step[1]])
                 if not z3.is_bv_value(idx):
                     raise Unknown("symbolic array index")
+                if isinstance(cur, Agg) and "items" in cur.f:
+                    cur = cur.f["items"]
                 if not isinstance(cur, list):
                     raise Unknown("index of non-array")
+                if idx.as_long() >= len(cur):
+                    raise PathEnd("panic", "index out of bounds")
                 cont, key = cur, idx.as_long()
             elif step[0] == "cindex":
                 cont, key = cur, step[1]
@@ -541,6 +550,16 @@ class Engine:
             a, b = self.operand(st, fr, a_t), self.operand(st, fr, b_t)
             ty = self.operand_type(fr, a_t) or self.operand_type(fr, b_t)
             return self.binop(m.group(1), a, b, ty)
+        m = re.match(r"PtrMetadata\((.*)\)$", rhs)
+        if m:
+            v = self.operand(st, fr, m.group(1))
+            while isinstance(v, Ref):
+                v = self.deref(v)
+            if isinstance(v, Agg) and "items" in v.f:
+                return BV(len(v.f["items"]), 64)
+            if isinstance(v, list):
+                return BV(len(v), 64)
+            raise Unknown("PtrMetadata of " + repr(v)[:60])
         m = re.match(r"(Not|Neg)\((.*)\)$", rhs)
         if m:
             a = self.operand(st, fr, m.group(2))
@@ -824,6 +843,9 @@ class Engine:
             if not st.stack:
                 return [Final("return", rv, st)]
             caller = st.stack[-1]
+            if fr.cont is not None:
+                outs = fr.cont(self, st, rv)
+                return self.apply_outcomes(st, caller, outs, fr.ret_dst, fr.ret_bb, "continuation")
             self.write_place(st, caller, fr.ret_dst, rv)
             caller.bb = fr.ret_bb
             return [st]
@@ -922,6 +944,50 @@ class Engine:
             out.append(s2)
         return out
 
+    def apply_outcomes(self, st, fr, outs, dst, ret_bb, callee):
+        """Turn model outcomes (value, extra condition, state) into successor states / Finals."""
+        res = []
+        for i, (val, cond, st2) in enumerate(outs):
+            s2 = st2 if st2 is not None else st
+            if cond is not None:
+                s2.pc.append(cond)
+            f2 = s2.stack[-1]
+            if val is PANIC:
+                res.append(Final("panic", None, s2, f"{callee[:80]} panics (model) in {short(fr.fn.name)} bb{fr.bb}"))
+                continue
+            if isinstance(val, BreakPoint):
+                res.append(Final("break", val.payload, s2, val.tag))
+                continue
+            wrap = None
+            if type(val).__name__ == "WrapOk":
+                wrap, val = "ok", val.push
+            elif type(val).__name__ == "WrapErr":
+                wrap, val = "err", val.push
+            cont = None
+            if type(val).__name__ == "ParCall":
+                cont, val = val.cont, val.push
+            if type(val).__name__ == "PushCall":
+                depth = sum(1 for f in s2.stack if f.fn is val.fn)
+                if depth >= self.max_depth:
+                    res.append(Final("unwind", None, s2, f"recursion bound reached for {short(val.fn.name)}"))
+                    continue
+                self.encoded.add(val.fn.name)
+                nf = Frame(val.fn)
+                for k, x in enumerate(val.args):
+                    nf.loc[k + 1] = x
+                nf.ret_dst, nf.ret_bb = dst, ret_bb
+                nf.wrap = wrap
+                nf.cont = cont
+                s2.stack.append(nf)
+                res.append(s2)
+                continue
+            self.write_place(s2, f2, dst, val)
+            if ret_bb is None:
+                raise PathEnd("panic", "diverging call returned")
+            f2.bb = ret_bb
+            res.append(s2)
+        return res
+
     # ------------------------------------------------------------------ calls
     def parse_call(self, head):
         dst, rest = head.split(" = ", 1)
@@ -956,50 +1022,14 @@ class Engine:
                 outs = handler(self, st, callee, args, dst_ty)
                 if outs is None:
                     continue
-                res = []
-                for i, (val, cond, st2) in enumerate(outs):
-                    s2 = st2 if st2 is not None else st
-                    if cond is not None:
-                        s2.pc.append(cond)
-                    f2 = s2.stack[-1]
-                    if val is PANIC:
-                        res.append(Final("panic", None, s2, f"{callee[:80]} panics (model) in {short(fr.fn.name)} bb{fr.bb}"))
-                        continue
-                    if isinstance(val, BreakPoint):
-                        res.append(Final("break", val.payload, s2, val.tag))
-                        continue
-                    wrap = None
-                    if type(val).__name__ == "WrapOk":
-                        wrap, val = "ok", val.push
-                    elif type(val).__name__ == "WrapErr":
-                        wrap, val = "err", val.push
-                    if type(val).__name__ == "PushCall":
-                        depth = sum(1 for f in s2.stack if f.fn is val.fn)
-                        if depth >= self.max_depth:
-                            res.append(Final("unwind", None, s2, f"recursion bound reached for {short(val.fn.name)}"))
-                            continue
-                        self.encoded.add(val.fn.name)
-                        nf = Frame(val.fn)
-                        for k, x in enumerate(val.args):
-                            nf.loc[k + 1] = x
-                        nf.ret_dst, nf.ret_bb = dst, ret_bb
-                        nf.wrap = wrap
-                        s2.stack.append(nf)
-                        res.append(s2)
-                        continue
-                    self.write_place(s2, f2, dst, val)
-                    if ret_bb is None:
-                        raise PathEnd("panic", "diverging call returned")
-                    f2.bb = ret_bb
-                    res.append(s2)
-                return res
+                return self.apply_outcomes(st, fr, outs, dst, ret_bb, callee)
         # 3. inline the callee's MIR
         for ent in self.inline:
             rx, fn_rx = ent[0], ent[1]
             hdr = ent[2] if len(ent) > 2 else None
             if rx.search(callee):
                 if "{name}" in fn_rx:
-                    last = re.sub(r"::<.*$", "", callee).split("::")[-1]
+                    last = [x for x in self._path_segments(callee) if x][-1]
                     fn_rx = fn_rx.replace("{name}", re.escape(last))
                 hits = [n for n in self.fns if re.search(fn_rx, n) and (hdr is None or hdr in self.fns[n].header)]
                 if len(hits) != 1:
